@@ -565,11 +565,17 @@ impl BoundsAnalyzer {
         let lhs_bounds = self.bounds_of(constraint.lhs());
         let rhs_bounds = self.bounds_of(constraint.rhs());
         let current = lhs_bounds.sub(rhs_bounds);
-        let Some(required) = current.intersection(required, self.tolerance) else {
+        if current.intersection(required, self.tolerance).is_none() {
             self.detected_infeasible = true;
             return;
-        };
+        }
 
+        // the reverse step uses the comparison's own interval, not its
+        // intersection with `lhs - rhs`: re-adding a side that was just
+        // subtracted loses the other side's range to rounding when the two
+        // differ by many orders of magnitude (`max{x, y} <= 1e16` pinned x and
+        // y to 0). `tighten_expression` intersects with the current bounds of
+        // each side anyway, so nothing is lost.
         self.tighten_expression(constraint.lhs(), required.add(rhs_bounds), changed);
         self.tighten_expression(constraint.rhs(), lhs_bounds.sub(required), changed);
     }
